@@ -78,7 +78,10 @@ pub struct NS(pub String);
 pub struct LeafLoader;
 
 fn decode_leaf(content: &[u8]) -> Result<String, BoxedError> {
-    note_loader_invocation();
+    // the sentinel of the quiescence barrier is never faulted
+    if !content.starts_with(b"ok:S") {
+        note_loader_invocation()?;
+    }
     let s = std::str::from_utf8(content)?;
     if s == "panic" {
         panic!("leaf loader panics");
@@ -233,9 +236,37 @@ pub fn violation(msg: String) {
     with_shadow(|s| s.events.push(Ev::Violation(msg)));
 }
 
-fn note_loader_invocation() {
+/// Fault plan for loader invocations (harness loaders): fail the k-th one with an error or a panic.
+#[derive(Default, Debug, Clone)]
+pub struct LoaderFaults {
+    pub counting: bool,
+    pub counter: u64,
+    pub fail_at: Option<(u64, bool)>,
+}
+
+pub static LOADER_FAULTS: Mutex<LoaderFaults> = Mutex::new(LoaderFaults { counting: false, counter: 0, fail_at: None });
+
+fn note_loader_invocation() -> Result<(), BoxedError> {
     let tid = crate::procfs::gettid();
     with_shadow(|s| s.events.push(Ev::LoaderInvoked { tid, seq: next_seq() }));
+    let hit = {
+        let mut f = LOADER_FAULTS.lock().unwrap_or_else(|e| e.into_inner());
+        if f.counting {
+            let k = f.counter;
+            f.counter += 1;
+            match f.fail_at {
+                Some((at, panic)) if at == k => Some(panic),
+                _ => None,
+            }
+        } else {
+            None
+        }
+    };
+    match hit {
+        Some(true) => panic!("injected loader panic"),
+        Some(false) => Err("injected loader error".into()),
+        None => Ok(()),
+    }
 }
 
 /// Resets the recorder and installs the source observer (top of a case).
@@ -388,12 +419,25 @@ fn pop_frame(ok: bool, tree: Option<&Tree>) {
                 }
             }
         }
+        // keep only the nested directory assets that really are cached now (a nested load may have failed)
+        if !nested.is_empty() {
+            if let Some(real) = cache_of(cache) {
+                let any = real.as_any_cache();
+                nested.retain(|(k, _)| match k.0 {
+                    Kind::Dir => any.contains::<assets_manager::Directory<Leaf>>(&k.1),
+                    _ => any.contains::<assets_manager::RecursiveDirectory<Leaf>>(&k.1),
+                });
+            }
+        }
         with_shadow(|s| {
             for (k, d) in nested {
                 s.deps.entry((cache, k.clone())).or_insert(d);
                 s.tolerated.entry((cache, k)).or_insert(false);
             }
             s.events.push(Ev::Loaded { tag: cache, key: key.clone(), tid, ok, seq: next_seq(), depth });
+            if ok && !owned {
+                s.tolerated.insert((cache, key.clone()), tolerated_failure);
+            }
             if !reloadable {
                 return;
             }
@@ -444,12 +488,14 @@ fn record_lookup(tag: u32, target: &AKey, target_reloadable: bool) {
     });
 }
 
-fn note_tolerated(tag: u32) {
+/// The asset being loaded on this thread embeds the failure / absence of a nested asset in its value.
+fn note_tolerated(_tag: u32) {
     FRAMES.with(|f| {
         let mut f = f.borrow_mut();
-        if let Some(i) = attribution_target(&mut f, tag) {
-            if let Frame::Loading { tolerated_failure, .. } = &mut f[i] {
+        for fr in f.iter_mut().rev() {
+            if let Frame::Loading { tolerated_failure, .. } = fr {
                 *tolerated_failure = true;
+                break;
             }
         }
     });
@@ -579,8 +625,8 @@ fn node_load(kind: Kind, cache: AnyCache, id: &SharedString) -> Result<String, B
     let rel = cache_reloadable(cache, kind);
     let owned = NEXT_OWNED.with(|o| o.replace(false));
     let guard = push_frame(Frame::Loading { key: (kind, id.to_string()), cache: 0, reloadable: rel, deps: BTreeSet::new(), reads: 0, analytic: false, tolerated_failure: false, owned });
-    note_loader_invocation();
     let res = (|| -> Result<String, BoxedError> {
+        note_loader_invocation()?;
         let tok0 = recording_token();
         if rel && tok0 == 0 {
             violation(format!("no dependency record is installed while the reloadable asset {kind:?} {id:?} is being loaded"));
@@ -798,7 +844,7 @@ impl ModelCtx<'_> {
 
     fn dir_ids(&self, tag: u32, id: &str) -> Option<Vec<String>> {
         let tree = &self.trees[&tag];
-        if !tree.dir_exists(id) {
+        if !tree.dir_exists(id) || (self.unreadable_files)(tag, id, "<dir>") {
             return None;
         }
         let mut v: Vec<String> = tree.files.keys().filter(|(fid, ext)| memsrc::parent_of(fid) == Some(id) && (ext == "la" || ext == "lb")).map(|(fid, _)| fid.clone()).collect();
@@ -839,7 +885,7 @@ impl ModelCtx<'_> {
                     other => return other,
                 };
                 let tree = &self.trees[&tag];
-                if !tree.dir_exists(id) {
+                if !tree.dir_exists(id) || (self.unreadable_files)(tag, id, "<dir>") {
                     return Fresh::Err;
                 }
                 let subs: Vec<String> = tree.dirs.iter().filter(|s| memsrc::parent_of(s) == Some(id)).cloned().collect();
@@ -917,7 +963,7 @@ impl ModelCtx<'_> {
                 }
                 ROp::X { id } => {
                     let tree = &self.trees[&tag];
-                    match tree.list(id) {
+                    match tree.list(id).filter(|_| !(self.unreadable_files)(tag, id, "<dir>")) {
                         Some(list) => {
                             let mut v: Vec<String> = list
                                 .iter()
@@ -1021,7 +1067,7 @@ impl World {
     pub fn new(static_mode: bool, second: SecondCache) -> World {
         reset();
         let src = MemSource::new(true);
-        src.tree().put(SENTINEL, "la", b"ok:0".to_vec(), Variant::Buffer);
+        src.tree().put(SENTINEL, "la", b"ok:S0".to_vec(), Variant::Buffer);
         let tag = src.tag();
         let boxed = Box::new(AssetCache::with_source(src.handle()));
         let ptr = Box::into_raw(boxed);
@@ -1088,7 +1134,7 @@ impl World {
     pub fn barrier(&mut self) {
         self.sentinel_version += 1;
         let before = self.sentinel_id();
-        self.src.tree().put(SENTINEL, "la", format!("ok:{}", self.sentinel_version).into_bytes(), Variant::Buffer);
+        self.src.tree().put(SENTINEL, "la", format!("ok:S{}", self.sentinel_version).into_bytes(), Variant::Buffer);
         self.src.send(&OwnedEntry::File(SENTINEL.to_string(), "la".to_string()));
         loop {
             if !self.static_mode {
@@ -1129,14 +1175,18 @@ impl World {
     }
 
     pub fn fresh_in(&self, tag: u32, kind: Kind, id: &str) -> Fresh {
+        self.fresh_with_view(tag, kind, id, &|t: u32, k: Kind, i: &str| self.cached_value(t, k, i))
+    }
+
+    /// Like `fresh_in`, with the caller's view of what is cached.
+    pub fn fresh_with_view(&self, tag: u32, kind: Kind, id: &str, cached: &dyn Fn(u32, Kind, &str) -> Option<String>) -> Fresh {
         let trees = self.trees();
-        let cached = |t: u32, k: Kind, i: &str| self.cached_value(t, k, i);
         let other = |t: u32| if self.tag2 == 0 { None } else if t == self.tag { Some(self.tag2) } else { Some(self.tag) };
         let unreadable = |t: u32, id: &str, ext: &str| {
             let src = if t == self.tag { Some(&self.src) } else { self.src2.as_ref() };
             src.map_or(false, |s| s.faults().unreadable_files.contains_key(&(id.to_string(), ext.to_string())))
         };
-        let ctx = ModelCtx { trees: &trees, cached: &cached, other: &other, unreadable_files: &unreadable, depth: std::cell::Cell::new(0) };
+        let ctx = ModelCtx { trees: &trees, cached, other: &other, unreadable_files: &unreadable, depth: std::cell::Cell::new(0) };
         ctx.fresh(tag, kind, id)
     }
 
